@@ -368,18 +368,28 @@ def systems(thorough):
     count = 12000 if thorough else 400
     k = 0
     while len(out) < count + 3:
-        k += 1; n = 1 + k % 5 + (k % 7 == 0) + (k % 11 == 0); m = n + k % 3; kind = ("int", "rat", "sparse", "scaled", "degenerate")[k % 5]
+        k += 1; n = 1 + k % 5 + (k % 7 == 0) + (k % 11 == 0); m = n + k % 3; kind = ("int", "rat", "sparse", "scaled", "degenerate", "nearzero", "correlated")[k % 7]
         if kind == "int": M = [[Fr(rnd.randint(-2, 2)) for _ in range(n)] for _ in range(m)]; y = [Fr(rnd.randint(-3, 3)) for _ in range(m)]
         elif kind == "rat": M = [[Fr(rnd.randint(-9, 9), rnd.randint(1, 7)) for _ in range(n)] for _ in range(m)]; y = [Fr(rnd.randint(-9, 9), rnd.randint(1, 5)) for _ in range(m)]
         elif kind == "sparse": M = [[Fr(rnd.randint(-3, 3)) if rnd.random() < 0.5 else Fr(0) for _ in range(n)] for _ in range(m)]; y = [Fr(rnd.randint(-3, 3)) for _ in range(m)]
         elif kind == "scaled":
             sc = [Fr(10) ** rnd.randint(-3, 3) for _ in range(n)]; M = [[Fr(rnd.randint(-5, 5), 3) * sc[j] for j in range(n)] for _ in range(m)]; y = [Fr(rnd.randint(-5, 5)) for _ in range(m)]
+        elif kind == "nearzero":
+            # the unconstrained optimum has components of size 1e-10 .. 1e-13 of either sign next to ordinary ones (inside / around the solver's own tolerance)
+            M = [[Fr(rnd.randint(-2, 2)) for _ in range(n)] for _ in range(m)]
+            x0 = [rnd.choice((Fr(1), Fr(2), Fr(0), Fr(-2, 10 ** 11), Fr(3, 10 ** 11), Fr(-1, 10 ** 12), Fr(-5, 10 ** 10), Fr(1, 10 ** 13))) for _ in range(n)]
+            y = [sum(M[r][j] * x0[j] for j in range(n)) for r in range(m)]
+        elif kind == "correlated":
+            # nearly collinear columns (a base column plus small integer perturbations), regularised by 1e-4 I: the systems on which plain block pivoting cycles
+            base = [Fr(rnd.randint(1, 5)) for _ in range(m)]
+            M = [[base[r] + Fr(rnd.randint(-2, 2), 10) for _ in range(n)] for r in range(m)]; y = [Fr(rnd.randint(-5, 5)) for _ in range(m)]
+            before = len(out); add("%s-%dx%d-#%d" % (kind, m, n, k), M, y, shift=Fr(1, 10 ** 4)); continue
         else:
             # degenerate: the unconstrained optimum has components exactly zero / ties: y built from a non-negative x0 with zeros
             M = [[Fr(rnd.randint(-2, 2)) for _ in range(n)] for _ in range(m)]; x0 = [Fr(rnd.randint(0, 2)) if rnd.random() < 0.6 else Fr(0) for _ in range(n)]
             y = [sum(M[r][j] * x0[j] for j in range(n)) for r in range(m)]
         before = len(out); add("%s-%dx%d-#%d" % (kind, m, n, k), M, y, shift=0)
-        if len(out) == before and kind in ("sparse", "int", "degenerate"): add("%s-%dx%d-#%d+I" % (kind, m, n, k), M, y, shift=1)
+        if len(out) == before and kind in ("sparse", "int", "degenerate", "nearzero"): add("%s-%dx%d-#%d+I" % (kind, m, n, k), M, y, shift=1)
     return out
 
 def solve_with(solver, A, b, nthreads=1, fl_mode="default"):
@@ -549,7 +559,7 @@ def main():
         if not native["exe"]: return dict(replayed=False, note="the native replay harness did not build")
         label, A, b, solver = bylabel[(m.group(1), m.group(2))][:4]
         argsv = " ".join(str(v) for r in A for v in r) + " " + " ".join(str(v) for v in b)
-        rc, out, w = vlib.sh("timeout -s KILL 60 %s %s %d %s 2>&1 | tail -5; exit ${PIPESTATUS[0]}" % (native["exe"], solver, len(A), argsv), timeout=90)
+        rc, out, w = vlib.sh("VERB=1 timeout -s KILL 60 %s %s %d %s 2>&1 | tail -8; exit ${PIPESTATUS[0]}" % (native["exe"], solver, len(A), argsv), timeout=90)
         return dict(replayed=(rc == 1), input="replay_nnls %s %d %s" % (solver, len(A), argsv), observed=("exit %d\n" % rc) + out[-1500:], command="tools/replay/replay_nnls.c linked with src/fitter/{nnls,cholesky_solve,splineutil}.c and the real cholmod")
     for name, sel in (("C11-block3", "nnls_normal_block3"), ("C11-block", "[nnls_normal_block,"), ("C11-updown", "[nnls_normal_block_updown,"), ("C11-lawson-hanson", "[nnls_lawson_hanson")):
         grp = [o for o in flat if sel in o[0]]
@@ -562,7 +572,7 @@ def main():
     t1 = time.time(); replay("%s [nnls_normal_block3," % sysl[0][0])                     # builds the harness
     nat = []
     if native.get("exe"):
-        bf = os.path.join(vlib.workdir(), "nnls_batch.txt"); order = [(label, A, b, sv) for (label, A, b) in sysl if not label.startswith("scaled") for sv in ("nnls_normal_block3", "nnls_normal_block", "nnls_normal_block_updown", "nnls_lawson_hanson")]
+        bf = os.path.join(vlib.workdir(), "nnls_batch.txt"); order = [(label, A, b, sv) for (label, A, b) in sysl if not label.startswith(("scaled", "correlated")) for sv in ("nnls_normal_block3", "nnls_normal_block", "nnls_normal_block_updown", "nnls_lawson_hanson")]
         with open(bf, "w") as f:
             for label, A, b, sv in order: f.write("%s %d %s %s\n" % (sv, len(A), " ".join(str(v) for r in A for v in r), " ".join(str(v) for v in b)))
         rc, out, w = vlib.sh("timeout -s KILL 600 %s --batch %s" % (native["exe"], bf), timeout=700)
@@ -585,9 +595,13 @@ def main():
                 okx = err <= lim
                 nat.append((tagn, not kkt and okx, "KKT violated at %s (gradient %s); max |x - x*| = %g (limit %g); x = %s; x* = %s" % (kkt, g, err, lim, xv, [float(v) for v in xo]), (label, sv)))
         rep.add_group("native run of the real library against the exact minimiser (conformance of the assumed contracts; BOUNDED, double arithmetic)", len(nat), sum(1 for o in nat if o[1]), time.time() - t1,
-                      bounded="the %d of these systems that are not badly scaled, all four solvers (Lawson-Hanson on the pre-formulated normal equations)" % len([1 for q in sysl if not q[0].startswith("scaled")]), name="C11-native")
+                      bounded="the %d of these systems that are neither badly scaled nor nearly singular, all four solvers (Lawson-Hanson on the pre-formulated normal equations)" % len([1 for q in sysl if not q[0].startswith(("scaled", "correlated"))]), name="C11-native")
         for o in nat:
-            if not o[1]: rep.add_violation("C11-native", re.sub(r"[^\w\-\+\.\[\],:#]", "_", o[0])[:200], o[0] + ": " + o[2], trace=o[2], replay=replay("%s [%s," % o[3]))
+            if not o[1]:
+                rp = replay("%s [%s," % o[3])
+                # the one class recorded as a known finding: block3 reaches its iteration cap in double arithmetic although the exact execution of the same system converges
+                cls = " [iteration cap reached in double arithmetic]" if o[3][1] == "nnls_normal_block3" and rp and "Failed to converge" in rp.get("observed", "") else ""
+                rep.add_violation("C11-native", re.sub(r"[^\w\-\+\.\[\],:#]", "_", o[0] + cls)[:220], o[0] + cls + ": " + o[2], trace=o[2], replay=rp)
     else: rep.undecided.append("the native harness did not build")
     # ---- E1 (CBMC, bounded by unwinding): the set bookkeeping of modify_factor_p for EVERY configuration of at most N coefficients
     mfun, mjob = bookkeeping_job(6 if thorough else 5)
